@@ -16,7 +16,7 @@ def rsize(lb, lr):
     return 1 << (47 - (3 + lr - lb))
 
 
-def build_rows(dumps, placements, core):
+def build_rows(dumps, placements, core, reserved_by_placement=None):
     """dumps: {fs: [plan dump dict]}; placements: list of {"global":[...],"local":[...]}; core: list."""
     core_end = max(s["offset"] + rsize(s["log_bits"], s["log_region"]) for s in core if not s["global"])
     rows, configs = {}, []
@@ -32,7 +32,9 @@ def build_rows(dumps, placements, core):
             for pi, p in enumerate(placements):
                 vm_all = p["global"] + p["local"]
                 vm_end = max([s["offset"] + rsize(s["log_bits"], s["log_region"]) for s in vm_all] + [0])
-                reserved = align_up(max(core_end, vm_end), gran)
+                # the reserved size the REAL start-up code computes for this placement (hx_consts vmreserved);
+                # the closed formula is only the fallback
+                reserved = (reserved_by_placement or {}).get(pi, align_up(max(core_end, vm_end), gran))
                 # which VM spec kinds does the plan use? (names are the spec type names)
                 active_vm = [s for s in vm_all if s["name"] in vm_used or s["name"] == "VMGlobalLogBitSpec" and "VMGlobalLogBitSpec" in vm_used]
                 specs = sorted(core_used + active_vm, key=lambda s: (s["offset"], s["name"]))
